@@ -2,7 +2,7 @@
    ts = the per-tree oracle values (m_t, v_t) at one query point, in any order; minv = min_variance. *)
 From Coq Require Import List ZArith QArith Qabs Bool Permutation Morphisms.
 Import ListNotations.
-Require Import DH.C18_Forest.Model DH.C18_Forest.Lemmas DH.C18_Forest.Check.
+Require Import DH.C18_Forest.Model DH.C18_Forest.Lemmas DH.C18_Forest.Check DH.C18_Forest.LemmasScale.
 Open Scope Q_scope.
 
 (* total = aleatoric + epistemic, for the CLAMPED values the two code paths return, for every oracle (impurities of
@@ -125,6 +125,42 @@ Theorem C18_model_meets_spec : forall minv ts st sa se, ts <> [] -> 0 <= minv ->
   Spec 0 0 minv ts [Some (mean1 ts); Some (mean2 minv ts); Some (mean3 minv ts)] [Some st; Some sa; Some se].
 Proof. exact model_meets_spec. Qed.
 Print Assumptions C18_model_meets_spec.
+
+(* the n_jobs oracle: a true verdict means the two observations agree entry by entry within the tolerances *)
+Theorem C18_oracle_same : forall f tol a b, all_close f tol a b = true ->
+  Forall2 (fun x y => exists p q, x = Some p /\ y = Some q /\ Qabs (f p - f q) <= tol) a b.
+Proof. exact all_close_spec. Qed.
+Print Assumptions C18_oracle_same.
+
+Theorem C18_oracle_lcb : forall eps kappa mu std a, ok_lcb eps kappa mu std a = true <->
+  Qabs (a - lcb_of kappa mu std) <= eps * (match kappa with None => Qabs std | Some k => Qabs mu + Qabs (k * std) end).
+Proof. exact ok_lcb_spec. Qed.
+Print Assumptions C18_oracle_lcb.
+
+(* every verdict computed by the extracted oracles is independent of the unit of the targets: multiplying tree means,
+   returned means and returned stds by c > 0 and impurities / min_variance by c^2 leaves each boolean unchanged.
+   (The harness uses c = 2^k so that every number of a case is an integer.) *)
+Theorem C18_oracle_scale_invariant : forall c, 0 < c -> forall epsm epsv minv ts means stds,
+  clauses epsm epsv (c * c * minv) (map (scale_tree c) ts) (sc_obs c means) (sc_obs c stds) = clauses epsm epsv minv ts means stds
+  /\ ok_C18 epsm epsv (c * c * minv) (map (scale_tree c) ts) (sc_obs c means) (sc_obs c stds) = ok_C18 epsm epsv minv ts means stds.
+Proof. intros c Hc epsm epsv minv ts means stds. split; [apply clauses_scale|apply ok_C18_scale]; exact Hc. Qed.
+Print Assumptions C18_oracle_scale_invariant.
+
+Theorem C18_corr_scale_invariant : forall c, 0 < c -> forall epsm epsv minv ts means stds, ts <> [] ->
+  corr_clauses epsm epsv (c * c * minv) (map (scale_tree c) ts) (sc_obs c means) (sc_obs c stds) = corr_clauses epsm epsv minv ts means stds.
+Proof. exact corr_clauses_scale. Qed.
+Print Assumptions C18_corr_scale_invariant.
+
+Theorem C18_same_scale_invariant : forall c, 0 < c -> forall epsm epsv minv ts m1 s1 m2 s2,
+  ok_same epsm epsv (c * c * minv) (map (scale_tree c) ts) (sc_obs c m1) (sc_obs c s1) (sc_obs c m2) (sc_obs c s2)
+  = ok_same epsm epsv minv ts m1 s1 m2 s2.
+Proof. exact ok_same_scale. Qed.
+Print Assumptions C18_same_scale_invariant.
+
+Theorem C18_lcb_scale_invariant : forall c, 0 < c -> forall eps kappa mu std a,
+  ok_lcb eps kappa (c * mu) (c * std) (c * a) = ok_lcb eps kappa mu std a.
+Proof. exact ok_lcb_scale. Qed.
+Print Assumptions C18_lcb_scale_invariant.
 
 (* non-vacuity: three trees, one with a (rounding-)negative impurity; floor 1/4.
    mean 2, aleatoric (1/4 + 1/4 + 1)/3 = 1/2, epistemic ((1)^2 + 0 + 1^2)/3 = 2/3, total 7/6 *)
